@@ -25,7 +25,7 @@ LEVEL = "exploration"
 RULE = ("scenario = (supported list, preferred, api) x server answer kind x answer instant around the timeout x 0..3 distractors "
         "x optional duplicate answer; non-trivial = the answer was not simply 'proposed version, immediately' (mismatch, counter-proposal, "
         "malformed, error, silence, boundary timing, distractor or duplicate)")
-PROBES = ["write_channel_broken_after_request", "concurrent_second_handshake", "write_stream_backpressure", "reconnect_same_client", "through_real_stdio_client", "answer_exactly_at_timeout", "counter_proposal_accepted", "mismatch_rejected", "malformed_answer", "error_answer",
+PROBES = ["mcpclient_initialize_after_cancelled_handshake", "write_channel_broken_after_request", "concurrent_second_handshake", "write_stream_backpressure", "reconnect_same_client", "through_real_stdio_client", "answer_exactly_at_timeout", "counter_proposal_accepted", "mismatch_rejected", "malformed_answer", "error_answer",
           "silence", "duplicate_answer", "preferred_not_in_list", "invented_version_accepted"]
 TIERS = {"quick": {"runs": 30000, "wall": 45.0}, "thorough": {"runs": 3000000, "wall": 560.0}}
 ASSUMPTIONS = [
@@ -92,6 +92,9 @@ def _gen_tail(rng, supported, preferred, timeout, ans, events, dup):
     return {"v": 1, "api": rng.choice(["send_initialize", "tracking", "tracking", "stdio"]), "supported": supported, "preferred": preferred,
             "timeout": timeout, "uuid_seed": rng.getrandbits(40), "mode": rng.choice(["parse_message", "model_validate"]),
             "pre_version": rng.choice([None, None, "2025-06-18", "2024-11-05"]),
+            "mcpclient": ({"first": "cancelled", "cancel_after": rng.choice([1, 10, 300]), "second": rng.choice(["initialize", "initialize", "list_tools"]),
+                           "answer_version": rng.choice(["proposed", "proposed", "2025-03-26", "1999-01-01"]), "answer_delay": rng.choice([0, 2, 50])}
+                          if rng.random() < 0.04 else None),
             "break_write_after_request": rng.random() < 0.06,
             "concurrent": ({"start": rng.choice([0, 1, 5]), "supported": [rng.choice(REAL + INVENTED[:6])], "answer_dt": rng.choice([1, 30, 400])}
                            if rng.random() < 0.12 else None),
@@ -105,6 +108,8 @@ def simplify(scn):
         c = copy.deepcopy(scn); c["slow_reader"] = None; yield c
     if scn.get("reconnect"):
         c = copy.deepcopy(scn); c["reconnect"] = None; yield c
+    if scn.get("mcpclient"):
+        c = copy.deepcopy(scn); c["mcpclient"] = None; yield c
     if scn.get("concurrent"):
         c = copy.deepcopy(scn); c["concurrent"] = None; yield c
     if scn.get("break_write_after_request"):
@@ -134,11 +139,109 @@ def _date_lt_cutoff(v: str) -> bool:
 
 
 def execute(scn: dict) -> dict:
+    if scn.get("mcpclient"):
+        return _execute_mcpclient(scn)
     if scn.get("reconnect"):
         return _execute_reconnect(scn)
     if scn["api"] == "stdio":
         return _execute_stdio(scn)
     return _execute_raw(scn)
+
+
+def _execute_mcpclient(scn: dict) -> dict:
+    """MCPClient.initialize(): a first handshake cancelled from outside while it awaits the answer, then a second call.
+    A later call may only report success after a real handshake (request written, acceptable answer, initialized sent)."""
+    from chuk_mcp.client.client import MCPClient
+    from chuk_mcp.transports.base import Transport
+    from chuk_mcp.protocol.types.versioning import SUPPORTED_VERSIONS
+
+    fu = FakeUUID(scn["uuid_seed"])
+    mc = scn["mcpclient"]
+    st = {"versions_set": []}
+
+    async def main(sim):
+        to_client_send, to_client_recv = anyio.create_memory_object_stream(100)
+        from_client_send, from_client_recv = anyio.create_memory_object_stream(100)
+        ws = RecSend(sim, from_client_send)
+        st["ws"] = ws
+
+        class FakeTransport(Transport):
+            def __init__(self):
+                super().__init__(None)
+
+            async def get_streams(self):
+                return to_client_recv, ws
+
+            async def __aenter__(self):
+                return self
+
+            async def __aexit__(self, *a):
+                return False
+
+            def set_protocol_version(self, version):
+                st["versions_set"].append(version)
+
+        async def server():
+            n = 0
+            async for item in from_client_recv:
+                d = dump(item)
+                if d.get("method") != "initialize":
+                    continue
+                n += 1
+                if n == 1 and mc["first"] == "cancelled":
+                    continue  # never answered in time: the caller gives up (cancellation from outside)
+                ver = mc["answer_version"] if mc["answer_version"] != "proposed" else d["params"]["protocolVersion"]
+                await anyio.sleep(ticks(mc["answer_delay"]))
+                to_client_send.send_nowait(build_inbound("parse_message", {"jsonrpc": "2.0", "id": d["id"], "result": {
+                    "protocolVersion": ver, "capabilities": {}, "serverInfo": {"name": "sim", "version": "1"}}}))
+        asyncio.get_running_loop().create_task(server(), name="server")
+        client = MCPClient(FakeTransport())
+        if mc["first"] == "cancelled":
+            with anyio.move_on_after(ticks(mc["cancel_after"])):
+                await client.initialize()
+            st["after_first"] = {"initialized": client.initialized, "writes": len(ws.items)}
+        st["n_before"] = len(ws.items)
+        try:
+            res = await client.initialize() if mc["second"] == "initialize" else await client.list_tools()
+            st["outcome"] = ("return", res)
+        except BaseException as e:  # noqa
+            st["outcome"] = ("raise", e)
+        st["client"] = client
+        await anyio.sleep(1.0)
+
+    with patched((_uuid, "uuid4", fu)):
+        info = run_sim(main, max_steps=100_000, max_vtime=500.0)
+    sim = info.sim
+    out = {"violations": [], "digest": sim.digest(), "isig": sim.isig() + ":mcpclient:" + repr(sorted(mc.items())), "faults": dict(sim.faults),
+           "probes": dict(sim.probes), "vtime": info.vtime, "steps": info.steps, "harness": list(sim.harness_errors),
+           "nontrivial": True, "history": None}
+    if info.deadlock or info.limit or info.exc is not None or "outcome" not in st:
+        out["harness"].append(f"run did not complete: deadlock={info.deadlock} limit={info.limit} exc={info.exc!r}")
+        return out
+    out["probes"]["mcpclient_initialize_after_cancelled_handshake"] = 1
+    writes = [dump(it) for (_e, _t, _tn, it) in st["ws"].items]
+    new = writes[st["n_before"]:]
+    kind, val = st["outcome"]
+    ans_ok = mc["answer_version"] == "proposed" or mc["answer_version"] in SUPPORTED_VERSIONS
+    handshake_done = any(w.get("method") == "initialize" for w in new) and any(w.get("method") == "notifications/initialized" for w in new)
+    client = st["client"]
+    if mc["second"] == "initialize" and kind == "return":
+        if not handshake_done:
+            out["violations"].append({"cls": "C03/accepted", "sig": "C03/accepted:no-handshake-performed",
+                                      "msg": f"MCPClient.initialize() reported success ({str(val)[:80]}) after an earlier cancelled attempt, but this call wrote "
+                                             f"{[w.get('method') for w in new]} - no initialize request / initialized notification"})
+        elif not ans_ok:
+            out["violations"].append({"cls": "C03/accepted", "sig": "C03/accepted:mismatch", "msg": f"MCPClient.initialize() succeeded on unsupported answer {mc['answer_version']!r}"})
+    if kind == "return" and client.initialized and not any(w.get("method") == "initialize" for w in new) and st["n_before"] <= 1 and mc["first"] == "cancelled":
+        if mc["second"] != "initialize":
+            out["violations"].append({"cls": "C03/accepted", "sig": "C03/accepted:no-handshake-performed",
+                                      "msg": "a request helper ran on an MCPClient whose only handshake attempt was cancelled; no handshake was performed"})
+    if kind == "raise" and ans_ok and mc["second"] == "initialize":
+        out["violations"].append({"cls": "C03/outcome", "sig": "C03/outcome:mcpclient-retry-failed",
+                                  "msg": f"the second MCPClient.initialize() raised {type(val).__name__}: {str(val)[:100]} although the server answered acceptably"})
+    out["history"] = {"api": "mcpclient", "spec": mc, "after_first": st.get("after_first"), "new_writes": [w.get("method") for w in new],
+                      "outcome": f"{kind}:{type(val).__name__}", "versions_set_on_transport": st["versions_set"]}
+    return out
 
 
 def _execute_reconnect(scn: dict) -> dict:
